@@ -283,3 +283,33 @@ def warning_regions(ctx):
     ctx.check(P.has(tl, "if $w != module_id:\n    return ($w, $l)"), "translate.passthrough", db.where(tl), "warnings of other files are not passed through unchanged", "other files unchanged")
     sw = db.func("template._show_warnings_as._show")
     ctx.check(P.has(sw, "$loc = locate($_, $_, $_, $_)\nif $loc is None:\n    return") and P.count(sw, "show_warning($_, $_, $_, $_, $_, $_)") == 1, "show.once", db.where(sw), "the hook does not show each warning exactly once through the original hook", "dropped or forwarded exactly once")
+
+
+@rule("C12.line-split-agreement", min_instances=3, props=["C11"])
+def line_split_agreement(ctx):
+    """template source is split into lines for display exactly the way the lexer counts them (at \\n only): RichTraceback and the error templates must not use splitlines(), which also breaks at form feed, NEL, U+2028, lone CR..."""
+    db = ctx.db
+    mr = db.func("lexer.Lexer.match_reg")
+    ctx.check("count('\\n')" in src(mr), "lexer-counts-newlines", db.where(mr), "the lexer no longer counts lines by '\\n'", "lexer counts \\n")
+    ri = db.func("exceptions.RichTraceback._init")
+    bad = [c for c in ast.walk(ri) if isinstance(c, ast.Call) and isinstance(c.func, ast.Attribute) and c.func.attr == "splitlines"]
+    good = [c for c in ast.walk(ri) if isinstance(c, ast.Call) and isinstance(c.func, ast.Attribute) and c.func.attr == "split" and c.args and const(c.args[0]) == "\n" and "template_source" in src(c.func.value)]
+    if bad:
+        ctx.violation("RichTraceback.split", db.where(bad[0]), "RichTraceback splits the template source with splitlines(): a template containing a form feed, U+2028 or a lone CR above the fault shows the text of a different line for every template frame")
+    else:
+        ctx.check(bool(good), "RichTraceback.split", db.where(ri), "RichTraceback does not split the template source at '\\n'", "template_source.split('\\n')")
+    # the error templates are Mako templates held in string constants
+    m = db.mod("exceptions")
+    n = 0
+    for node in ast.walk(m.tree):
+        if isinstance(node, ast.Constant) and isinstance(node.value, str) and "RichTraceback" in node.value and "<%" in node.value:
+            n += 1
+            f = getattr(node, "_func", None)
+            q = getattr(f, "_qual", "?")
+            if "splitlines(" in node.value:
+                ctx.violation("template.split:" + q, db.where(node), "the error template in %s splits the source with splitlines(): the highlighted line is not the line the exception names when the template contains other line-boundary characters" % q)
+            elif ".split(" in node.value:
+                ctx.check(".split('\\n')" in node.value or '.split("\\n")' in node.value, "template.split:" + q, db.where(node), "the error template in %s splits the source at something other than \\n" % q, "split('\\n')")
+            else:
+                ctx.ok("template.split:" + q, db.where(node), "no line splitting in this template")
+    ctx.require(n >= 2, "error templates not found in exceptions.py")
